@@ -130,7 +130,11 @@ class asyncio_monitor:
     def _propagates(c, self, payload, exc):
         return c.And(c.n_events() == 2, ev_kind(c, 1, "raised"), Event.e_b(c.event_at(1)) == exc.t, c.unchanged(self._payload_failure, "is_done", "stored_exc"))
 
-    raises = {"asyncio.CancelledError": _propagates, "KeyboardInterrupt": _propagates}
+    # per the property only KeyboardInterrupt may leave the monitor without becoming the failure.  The code ALSO lets CancelledError
+    # through - it has to, that is how the runtime cancels the payload at shutdown - and cannot tell it from a payload that raises
+    # CancelledError itself: that outcome is the known finding below (tied to the `except CancelledError` branch being taken)
+    raises = {"KeyboardInterrupt": _propagates}
+    known = {"raises": ("C01-asyncio-payload-raising-cancellederror-is-not-a-failure", ("decision", "except-asyncio.CancelledError", 0))}
 
 
 TrioR = TObj(RUN + "trio_runner:TrioRunner", asyncio_loop=ALoop, _logger=PyLogger, _stopped=TEvent, _ready=TAny(), _trio_token=TAny(), _submit_tasks=TAny())
